@@ -49,7 +49,7 @@ def char_tests(ctx, body, only=None):
                     found.add(('match', v))
         for c in b.calls(['char::is_control', 'char::is_ascii_control', 'core::char::methods::<impl char>::is_control',
                           'core::char::methods::<impl char>::is_ascii_control', 'u8::is_ascii_control']):
-            found.add(('call', 'is_control'))
+            found.add(('call', 'is_ascii_control' if 'ascii' in c.callee else 'is_control'))
     return found
 
 
@@ -79,6 +79,22 @@ def rule_json_str(ctx):
               'errors) are written verbatim into JSON strings, which makes /api/v1/status unparseable' % sorted(map(str, tests)),
               loc=b.file + ':%d' % b.line)
     ctx.extra['json_str_char_tests'] = sorted(map(str, tests))
+    # The escape arm works on BYTES (s.as_bytes()[idx], &s[idx + 1..]): every character the search predicate selects must be
+    # a one-byte (ASCII) character, otherwise the slice after it starts inside a UTF-8 sequence and panics.
+    bytewise = False
+    for bb_ in [b] + ctx.closures(b):
+        for s_ in bb_.calls(['re:::index$']):
+            for a in s_.term['args'][1:]:
+                if 'AddWithOverflow' in describe(bb_.origin_of_operand(a)) and 'const(1)' in describe(bb_.origin_of_operand(a)):
+                    bytewise = True
+    wide = [v for o, v in tests if o == 'call' and v == 'is_control'] + \
+           [v for o, v in tests if o in ('Gt', 'Ge', 'revLt', 'revLe') and isinstance(v, str) and v.startswith("'\\u{")]
+    ctx.check(not (bytewise and wide), 'esc', 'json_str:predicate-selects-ascii-only',
+              'the search predicate selects one-byte characters only, as the byte-wise escape arm requires',
+              'json_str searches with a predicate that also matches multi-byte characters (%s, e.g. the C1 controls U+0080..U+009F) '
+              'but escapes byte-wise (`&s[idx + 1..]`): such a character makes the slice start inside a UTF-8 sequence and the '
+              'writer panics - /status, the JSON and SLURM outputs abort for a TAL name or comment containing it' % wide,
+              loc='%s:%d' % (b.file, b.line))
     # slice indices are byte offsets
     n = 0
     for bb in [b] + ctx.closures(b):
